@@ -175,6 +175,12 @@ pub fn faults_for(proto: &Proto, exhaustive_lengths: bool, bit_stride: usize) ->
         if !oneway {
             f.push(Fault { at: rpos, ops: vec![Op::TRead { side: w, msg: Msg::Last(w), cap: Cap::Roomy }], kind: "transport read of a reflected message", omit_psk: None });
         }
+        // calls refused because the counter stands at the reserved value 2^64-1: the counter is moved there and back
+        // with the explicit setters (which are not failed calls and are not judged), the refused call in between
+        // must leave nothing behind
+        let nth = (if oneway { j } else { j / 2 }) as u64;
+        f.push(Fault { at: rpos, ops: vec![Op::SetRecvNonce { side: r, n: u64::MAX }, Op::TRead { side: r, msg: Msg::Last(w), cap: Cap::Roomy }, Op::SetRecvNonce { side: r, n: nth }], kind: "transport read at an exhausted counter", omit_psk: None });
+        f.push(Fault { at: wpos, ops: vec![Op::SetSendNonce { side: w, n: u64::MAX }, Op::TWrite { side: w, plen: 3, cap: Cap::Roomy }, Op::SetSendNonce { side: w, n: nth }], kind: "transport write at an exhausted counter", omit_psk: None });
     }
     f
 }
@@ -205,7 +211,7 @@ fn judge_against_clean(e: &Exec, clean: &[Vec<Vec<u8>>; 2], fault_steps: &[usize
     let failed: Vec<bool> = fault_steps.iter().map(|k| matches!(e.steps.get(*k).map(|s| &s.real), Some(Real::Err(_)))).collect();
     // a "fault" that did not fail (e.g. a flip in a clear field that is accepted, a SetPsk) is not a failed call:
     // C07 says nothing about it
-    let set_psk_step = |k: &usize| matches!(e.steps.get(*k).map(|s| &s.op), Some(Op::SetPsk { .. }));
+    let set_psk_step = |k: &usize| matches!(e.steps.get(*k).map(|s| &s.op), Some(Op::SetPsk { .. } | Op::SetRecvNonce { .. } | Op::SetSendNonce { .. }));
     if fault_steps.iter().zip(&failed).any(|(k, f)| !*f && !set_psk_step(k)) {
         return (v, false);
     }
@@ -488,7 +494,7 @@ fn seq_spec(proto: &Proto, depth_extra: usize, devs: usize) -> SeqSpec {
 pub fn run(tier: Tier) -> i32 {
     let ctx = Ctx::new("C07", tier, "fault_enumeration");
     let quick = ctx.quick();
-    ctx.set_rule("case = (protocol name, honest session of handshake + 6 transport messages, 1 or 2 failing calls inserted at a chosen point: undersized write buffer at every token boundary (thorough: every length), over-long payload, out-of-turn call, PSK supplied late, set_psk with a wrong key length / location on an empty slot, bit-flipped / truncated / extended / oversize / all-zero / earlier message, undersized payload buffer, transport-mode failures); oracle: wire bytes identical to the run without the failing calls, every other step Ok, no public getter changes across the failed call; non-trivial = every inserted call really returned Err; plus E2 BFS over scattered failures");
+    ctx.set_rule("case = (protocol name, honest session of handshake + 6 transport messages, 1 or 2 failing calls inserted at a chosen point: undersized write buffer at every token boundary (thorough: every length), over-long payload, out-of-turn call, PSK supplied late, set_psk with a wrong key length / location on an empty slot, bit-flipped / truncated / extended / oversize / all-zero / earlier message, undersized payload buffer, transport-mode failures incl. reads and writes refused at a counter moved to 2^64-1 and back with the explicit setters); oracle: wire bytes identical to the run without the failing calls, every other step Ok, no public getter changes across the failed call; non-trivial = every inserted call really returned Err; plus E2 BFS over scattered failures");
     // E1
     let mut names: Vec<(Proto, bool)> = patterns::all_protos_for_suite(DhAlg::X25519, CipherAlg::ChaChaPoly, HashAlg::Sha256).into_iter().map(|p| (p, false)).collect();
     for b in patterns::base_patterns() {
